@@ -7,7 +7,9 @@ from spverif.core import repo as repo_mod
 def main() -> int:
     repo_mod.setup_repo_import()
     from spverif.ref import crc, ccsds, pus, cds, cfdp, uslp
-    from spacepackets.crc import CRC16_CCITT_FUNC
+    # the third-party CRC routine the library is built on, taken directly (the self-test must not depend on the tree under test)
+    from crcmod.predefined import mkPredefinedCrcFun
+    CRC16_CCITT_FUNC = mkPredefinedCrcFun(crc_name="crc-ccitt-false")
     import random
     r = random.Random(1)
     assert crc.crc16_bitwise(b"123456789") == 0x29B1 == crc.crc16(b"123456789") == CRC16_CCITT_FUNC(b"123456789")
